@@ -30,6 +30,9 @@ pub struct TimedCache {
     map: Arc<DashMap<Vec<u8>, CachedItem>>,
     last_clean: Arc<RwLock<Instant>>,
     can_clean: Arc<AtomicBool>,
+    /// The number of times the cache was flushed. Records which were read from the database
+    /// before a flush must not be put into the cache after it.
+    generation: Arc<RwLock<u64>>,
     item_lifetime: Duration,
     memory_limit_bytes: Option<usize>,
     clean_frequency: Duration,
@@ -141,6 +144,7 @@ impl TimedCache {
             map: Arc::new(DashMap::new()),
             last_clean: Arc::new(RwLock::new(Instant::now())),
             can_clean: Arc::new(AtomicBool::new(true)),
+            generation: Arc::new(RwLock::new(0)),
             item_lifetime: lifetime,
             memory_limit_bytes: o_memory_limit_bytes,
             clean_frequency,
@@ -231,8 +235,18 @@ impl TimedCache {
     /// is only cached if there is no (unexpired) entry for it yet: while the read was underway,
     /// a write may already have put a more recent version of the record into the cache, which
     /// must not be replaced by the older one.
-    pub async fn batch_put_if_absent(&self, records: &[DbRecord]) {
+    ///
+    /// `read_generation` is the [generation](Self::generation) of the cache at the time the read
+    /// of the records from the database began. If the cache was flushed since then, the records
+    /// may be out of date by now and are not cached.
+    pub async fn batch_put_if_absent(&self, records: &[DbRecord], read_generation: u64) {
         self.clean().await;
+
+        // holding the read lock keeps a flush from happening while the records are inserted
+        let generation = self.generation.read().await;
+        if *generation != read_generation {
+            return;
+        }
 
         for record in records.iter() {
             if let DbRecord::Azks(azks_ref) = &record {
@@ -260,8 +274,15 @@ impl TimedCache {
         }
     }
 
+    /// The current generation of the cache, i.e. the number of times it was flushed.
+    pub async fn generation(&self) -> u64 {
+        *self.generation.read().await
+    }
+
     /// Flush the cache.
     pub async fn flush(&self) {
+        let mut generation = self.generation.write().await;
+        *generation += 1;
         self.map.clear();
         *(self.azks.write().await) = None;
     }
